@@ -445,7 +445,8 @@ class SimplePathStrategy(object):
             # have we reached the end of the last fragment?
             if fid + 1 == frags_len and p == frag_len:
                 if attrib: # attribute ended path, return value
-                    return attrib(kind, data, pos, namespaces, variables)
+                    return attrib(kind, data, pos, namespaces, variables) \
+                        or None
                 return True
 
             return None
